@@ -415,7 +415,7 @@ func schedOpsKey(c *Ctx) *RuleResult {
 
 func schedPropagationLoops(c *Ctx) *RuleResult {
 	r := &RuleResult{Rule: "C04.propagate", Floor: 4,
-		Doc: "changes at an invocation are propagated to ALL ancestors: every loop that re-sorts a parent's heap (heapPushOrFix / heapRemoveOrFix / heapMaybeFix on X.parent.<heap>) and steps X = X.parent runs until the root — its only exits are the X.parent == nil test (as loop condition or guarded break)"}
+		Doc: "changes at an invocation are propagated to ALL ancestors: every loop that re-sorts a parent's heap (heapPushOrFix / heapRemoveOrFix / heapMaybeFix on X.parent.<heap>) or adjusts a per-invocation counter (X.count++ / --) and steps X = X.parent runs until the root — its only exits are the X.parent == nil test (as loop condition or guarded break)"}
 	p := c.P
 	parent := p.LookupField(schedPkg, "invocation", "parent")
 	fixers := map[*types.Func]bool{p.LookupFunc(schedPkg, "heapPushOrFix"): true, p.LookupFunc(schedPkg, "heapRemoveOrFix"): true, p.LookupFunc(schedPkg, "heapMaybeFix"): true}
@@ -445,6 +445,13 @@ func schedPropagationLoops(c *Ctx) *RuleResult {
 							}
 						}
 					}
+				case *ast.IncDecStmt:
+					// a per-invocation counter of the loop variable is adjusted at every level
+					if sel, ok := ast.Unparen(x.X).(*ast.SelectorExpr); ok && fieldOf(info, sel) != nil {
+						if _, isID := ast.Unparen(sel.X).(*ast.Ident); isID && namedIs(info.TypeOf(sel.X), modPath+"/"+schedPkg, "invocation") {
+							fixes = true
+						}
+					}
 				case *ast.AssignStmt:
 					if len(x.Lhs) == 1 && len(x.Rhs) == 1 && fieldOf(info, x.Rhs[0]) == parent {
 						if sel, ok := ast.Unparen(x.Rhs[0]).(*ast.SelectorExpr); ok && exprStr(sel.X) == exprStr(x.Lhs[0]) {
@@ -462,15 +469,24 @@ func schedPropagationLoops(c *Ctx) *RuleResult {
 			}
 			construct := constructOf(u, "propagation loop")
 			bad := ""
+			// the walk ends when there is no parent (`X.parent == nil`) or when the cursor itself ran off
+			// the root (`X == nil`, for loops written `for X := start; X != nil; X = X.parent`)
 			isRootTest := func(e ast.Expr, wantEq bool) bool {
 				be, ok := ast.Unparen(e).(*ast.BinaryExpr)
-				if !ok || fieldOf(info, be.X) != parent || !isNilIdent(be.Y) {
+				if !ok || !isNilIdent(be.Y) || (be.Op != token.EQL && be.Op != token.NEQ) {
+					return false
+				}
+				isCursor := false
+				if id, ok := ast.Unparen(be.X).(*ast.Ident); ok && namedIs(info.TypeOf(id), modPath+"/"+schedPkg, "invocation") {
+					isCursor = true
+				}
+				if fieldOf(info, be.X) != parent && !isCursor {
 					return false
 				}
 				return (be.Op == token.EQL) == wantEq
 			}
 			if loop.Cond != nil && !isRootTest(loop.Cond, false) {
-				bad = "loop condition is not `X.parent != nil`"
+				bad = "loop condition is not `X.parent != nil` / `X != nil`"
 			}
 			var walkExits func(n ast.Node, breakable bool)
 			walkExits = func(n ast.Node, breakable bool) {
